@@ -5,8 +5,8 @@ import math, itertools
 from fractions import Fraction
 from engine import Prop, fbits, bitsf, ratstr, tok_list, untok, close
 
-RATIONAL_KERNELS = ("uniform", "triangular", "epanechnikov")
-TABLE_KERNELS = ("gaussian", "exponential", "cubic", "spheric")
+RATIONAL_KERNELS = ("uniform", "triangular", "epanechnikov", "cubic", "spheric")   # kernel functions the model computes over Rat
+TABLE_KERNELS = ("gaussian", "exponential")                                         # math.exp: floats only (model: Float.exp)
 OBJ_KERNELS = RATIONAL_KERNELS + TABLE_KERNELS + ("dirac",)
 NAN = float("nan")
 _PRISTINE = None
@@ -229,6 +229,11 @@ class P(Prop):
         (M, "TV.C15.execute_short_track", "Filter.execute as a whole (list / Kernel object / Dirac) on a short track with copied boundaries: unchanged for D <= size < N, IndexError for size < D"),
         (M, "TV.C15.smooth_short_track", "Track.smooth on a track shorter than the Gaussian window but with at least D points: coordinates and features unchanged"),
         (M, "TV.C15.smooth_too_short_fails", "Track.smooth on a track of fewer than D = int(3*width) points raises IndexError at the first coordinate; module-level state untouched"),
+        (M, "TV.C15.window_of_even_nonneg_kernel", "T5 for a kernel function even, non-negative everywhere, positive at 0, support >= 1: odd symmetric non-negative window summing to 1 with a positive centre weight"),
+        (M, "TV.C15.pow_kernels", "the Cubic/Spheric kernel functions (math.pow with integer exponents) are even, 1 at 0 and non-negative: (1-u)^4(3u^3+12u^2+16u+4)/4 and (1-u)^2(2+u)/2"),
+        (M, "TV.C15.pow_kernel_windows", "Cubic/Spheric kernels of any sigma >= 1: odd, symmetric, non-negative window summing to 1"),
+        (M, "TV.C15.exp_kernel_windows", "Gaussian/Exponential kernels, math.exp any positive-valued function, support 3*sigma >= 1: odd, symmetric, non-negative window summing to 1"),
+        (M, "TV.C15.smooth_gaussian", "Track.smooth(width) with the Gaussian function written out (math.exp positive): NaN-free coordinates of at least int(3*width) points become their mean signals under the Gaussian window, which exists and is well shaped"),
         (M, "TV.C15.zero_norm_fails", "outside the domain (a zero norm) the method fails with a division by zero for a Kernel object, never a wrong value"),
     ]
     partial = []
@@ -988,7 +993,11 @@ class P(Prop):
         if t == "dirac":
             return "dirac " + self.fbtok(k)
         if sc == "r" and t in RATIONAL_KERNELS:
-            return "%s %s %s" % ({"uniform": "uni", "triangular": "tri", "epanechnikov": "epa"}[t], self.fbtok(k), ratstr(k["p"]))
+            return "%s %s %s" % ({"uniform": "uni", "triangular": "tri", "epanechnikov": "epa", "cubic": "cub", "spheric": "sph"}[t],
+                                 self.fbtok(k), ratstr(k["p"]))
+        if sc == "f" and t in TABLE_KERNELS:
+            # the model evaluates math.exp / math.sqrt itself (Float.exp / Float.sqrt of the Lean runtime)
+            return "%s %s %s" % ({"gaussian": "gau", "exponential": "expo"}[t], self.fbtok(k), fbits(k["p"]))
         if t == "user":
             return "user %s %s %s" % (self.fbtok(k), self.tok(sc, k["s"]), tok_list(self.tok(sc, val) for _, val in k["tbl"]))
         # any other Kernel object: its Python function tabulated at the half-integers around the window
